@@ -88,12 +88,47 @@ class Body:
         if k == "call":
             return [t["target"]] if t["target"] is not None else []
         if k == "switch":
+            only = self._const_switch_target(bb, t)
+            if only is not None:
+                return [only]
             return [b for _, b in t["cases"]] + [t["otherwise"]]
         if k in ("assert", "goto", "drop", "yield"):
             return [t["target"]]
         if k == "other":
             return [s for s in t.get("succ", []) if not self.blocks[s]["cl"]]
         return []
+
+    _KNOWN_DISCR = {"core::option::Option::None": 0, "core::option::Option::Some": 1, "core::result::Result::Ok": 0, "core::result::Result::Err": 1}
+
+    def _const_switch_target(self, bb, t):
+        """a switch on the discriminant of a value that was just built as a known Option/Result variant in the same block has one
+        feasible edge (e.g. async_trait's `if let Some(__ret) = None::<T> { return __ret }` type-inference stub)"""
+        discr = op_place(t["discr"])
+        if discr is None or discr["p"]:
+            return None
+        dl = discr["l"]
+        src = None
+        for s in self.blocks[bb]["s"]:
+            if s["d"]["l"] == dl and not s["d"]["p"] and s["k"] == "discr":
+                pl = op_place(s["o"][0])
+                if pl is not None and not pl["p"]:
+                    src = pl["l"]
+        if src is None:
+            return None
+        variant = None
+        for s in self.blocks[bb]["s"]:
+            if s["d"]["l"] == src and not s["d"]["p"] and s["k"] == "agg":
+                variant = self._KNOWN_DISCR.get(s.get("agg", "")[4:])
+        if variant is None:
+            return None
+        # the aggregate must be the only definition of that local
+        n_defs = sum(1 for b2 in self.blocks for s in b2["s"] if s["d"]["l"] == src and not s["d"]["p"])
+        if n_defs != 1:
+            return None
+        for v, tgt in t["cases"]:
+            if v == variant:
+                return tgt
+        return t["otherwise"]
 
     @property
     def succ(self):
